@@ -63,6 +63,13 @@ func (h *H[T]) C10(rc *runCtx) *Violation {
 	case isHuge(a):
 		nOps, maxOut = 14, 3
 		rc.tally("shape_class", "huge")
+	case a.Channels*a.Capacity > 2*rc.b.MaxK && a.Channels*a.Capacity > 512 && a.Channels < 60:
+		if isMedium(a) {
+			nOps, maxOut = 24, 3
+		} else if maxOut > 4 {
+			maxOut = 4
+		}
+		rc.tally("shape_class", "medium")
 	case prog.Draw(rc.b.MarathonOneIn) == rc.b.MarathonOneIn-1:
 		// Marathon: a very long history on a tiny shape with many buffers out,
 		// for state that only goes wrong after tens of thousands of operations
